@@ -74,7 +74,11 @@ func (c Command) ExecuteIQ(ctx context.Context, iq stanza.IQ, payload xml.TokenR
 	if err != nil {
 		return resp, nil, err
 	}
-	start := t.(xml.StartElement)
+	start, ok := t.(xml.StartElement)
+	if !ok {
+		err = errors.New("commands: response is not an IQ")
+		return resp, nil, err
+	}
 	respIQ, err := stanza.UnmarshalIQError(respPayload, start)
 	if err != nil {
 		return resp, nil, err
@@ -84,7 +88,12 @@ func (c Command) ExecuteIQ(ctx context.Context, iq stanza.IQ, payload xml.TokenR
 	if err != nil {
 		return resp, nil, err
 	}
-	start = t.(xml.StartElement)
+	start, ok = t.(xml.StartElement)
+	if !ok {
+		// A result without payload, or with character data in place of it.
+		err = errors.New("commands: response contains no command")
+		return resp, nil, err
+	}
 	resp, err = respFromStart(start, respIQ)
 	if err != nil {
 		return resp, nil, err
